@@ -2082,8 +2082,34 @@ BTree_pop(BTree *self, PyObject *args)
     /* No default given.  The only difference in this case is the error
     * message, which depends on whether the tree is empty.
     */
-    if (BTree_length_or_nonzero(self, 1) == 0) /* tree is empty */
-        PyErr_SetString(PyExc_KeyError, "pop(): BTree is empty");
+    {
+        /* Looking at the tree may have to load it again (it can have been
+        * evicted since the search), which runs arbitrary code:  that must
+        * not happen with the KeyError still set.
+        */
+        PyObject *et, *ev, *tb;
+        int nonzero;
+
+        PyErr_Fetch(&et, &ev, &tb);
+        nonzero = BTree_length_or_nonzero(self, 1);
+        if (nonzero < 0)
+        {
+            /* loading failed:  report that */
+            Py_XDECREF(et);
+            Py_XDECREF(ev);
+            Py_XDECREF(tb);
+            return NULL;
+        }
+        if (nonzero == 0) /* tree is empty */
+        {
+            Py_XDECREF(et);
+            Py_XDECREF(ev);
+            Py_XDECREF(tb);
+            PyErr_SetString(PyExc_KeyError, "pop(): BTree is empty");
+        }
+        else
+            PyErr_Restore(et, ev, tb);
+    }
     return NULL;
 }
 
